@@ -349,14 +349,17 @@ func Insert(ctx context.Context, scope *ReferenceScope, query parser.InsertQuery
 
 	var insertRecords int
 
+	tables := []parser.QueryExpression{
+		query.Table,
+	}
+
 	if query.WithClause != nil {
+		if err := holdTablesBeforeWithClause(ctx, queryScope, query.WithClause.(parser.WithClause), tables); err != nil {
+			return nil, insertRecords, err
+		}
 		if err := queryScope.LoadInlineTable(ctx, query.WithClause.(parser.WithClause)); err != nil {
 			return nil, insertRecords, err
 		}
-	}
-
-	tables := []parser.QueryExpression{
-		query.Table,
 	}
 
 	vhook.AwaitMutex("operation", queryScope.Tx.operationMutex)
@@ -399,18 +402,75 @@ func Insert(ctx context.Context, scope *ReferenceScope, query parser.InsertQuery
 	return view.FileInfo, insertRecords, err
 }
 
+// holdTablesBeforeWithClause loads the tables that a data-changing statement
+// names for update before the WITH clause of the statement is evaluated. An
+// inline table that reads one of these files must see the file as it is while
+// this transaction holds it. Evaluated first, the inline table would be built
+// from the file as it was before the lock was taken, and a change committed by
+// another process in between would be overwritten by this statement.
+func holdTablesBeforeWithClause(ctx context.Context, scope *ReferenceScope, clause parser.WithClause, tables []parser.QueryExpression) error {
+	inlineTableNames := make(map[string]bool, len(clause.InlineTables))
+	for _, v := range clause.InlineTables {
+		if inlineTable, ok := v.(parser.InlineTable); ok {
+			inlineTableNames[strings.ToUpper(inlineTable.Name.Literal)] = true
+		}
+	}
+
+	identifiers := make([]parser.Identifier, 0, len(tables))
+	var collect func(expr parser.QueryExpression)
+	collect = func(expr parser.QueryExpression) {
+		switch e := expr.(type) {
+		case parser.Parentheses:
+			collect(e.Expr)
+		case parser.Table:
+			switch obj := e.Object.(type) {
+			case parser.Identifier:
+				if !inlineTableNames[strings.ToUpper(obj.Literal)] {
+					identifiers = append(identifiers, obj)
+				}
+			case parser.Join:
+				collect(obj.Table)
+				collect(obj.JoinTable)
+			}
+		}
+	}
+	for _, table := range tables {
+		collect(table)
+	}
+	if len(identifiers) < 1 {
+		return nil
+	}
+
+	vhook.AwaitMutex("operation", scope.Tx.operationMutex)
+	scope.Tx.operationMutex.Lock()
+	defer scope.Tx.operationMutex.Unlock()
+
+	for _, identifier := range identifiers {
+		loadScope := scope.CreateNode()
+		_, err := LoadView(ctx, loadScope, []parser.QueryExpression{parser.Table{Object: identifier}}, true, false)
+		loadScope.CloseCurrentNode()
+		if err != nil {
+			return err
+		}
+	}
+	return nil
+}
+
 func Update(ctx context.Context, scope *ReferenceScope, query parser.UpdateQuery) ([]*FileInfo, []int, error) {
 	queryScope := scope.CreateNode()
 	defer queryScope.CloseCurrentNode()
 
+	if query.FromClause == nil {
+		query.FromClause = parser.FromClause{Tables: query.Tables}
+	}
+
 	if query.WithClause != nil {
+		if err := holdTablesBeforeWithClause(ctx, queryScope, query.WithClause.(parser.WithClause), query.FromClause.(parser.FromClause).Tables); err != nil {
+			return nil, nil, err
+		}
 		if err := queryScope.LoadInlineTable(ctx, query.WithClause.(parser.WithClause)); err != nil {
 			return nil, nil, err
 		}
-	}
-
-	if query.FromClause == nil {
-		query.FromClause = parser.FromClause{Tables: query.Tables}
 	}
 
 	vhook.AwaitMutex("operation", queryScope.Tx.operationMutex)
@@ -540,14 +600,17 @@ func Replace(ctx context.Context, scope *ReferenceScope, query parser.ReplaceQue
 
 	var replaceRecords int
 
+	tables := []parser.QueryExpression{
+		query.Table,
+	}
+
 	if query.WithClause != nil {
+		if err := holdTablesBeforeWithClause(ctx, queryScope, query.WithClause.(parser.WithClause), tables); err != nil {
+			return nil, replaceRecords, err
+		}
 		if err := queryScope.LoadInlineTable(ctx, query.WithClause.(parser.WithClause)); err != nil {
 			return nil, replaceRecords, err
 		}
-	}
-
-	tables := []parser.QueryExpression{
-		query.Table,
 	}
 
 	vhook.AwaitMutex("operation", queryScope.Tx.operationMutex)
@@ -595,6 +658,9 @@ func Delete(ctx context.Context, scope *ReferenceScope, query parser.DeleteQuery
 	defer queryScope.CloseCurrentNode()
 
 	if query.WithClause != nil {
+		if err := holdTablesBeforeWithClause(ctx, queryScope, query.WithClause.(parser.WithClause), query.FromClause.Tables); err != nil {
+			return nil, nil, err
+		}
 		if err := queryScope.LoadInlineTable(ctx, query.WithClause.(parser.WithClause)); err != nil {
 			return nil, nil, err
 		}
